@@ -73,12 +73,26 @@ def l1_scaling(vc, cfg):
     vc.prove("caller-array-unmodified", vc.eq_arr(B, Bin))
     amax = vc.min_(*[vc.max_(*[Ap[j, k] * ub[k] for k in range(ns)]) for j in range(nf)])
     c = amax / bmax
-    vc.prove("common factor is positive", vc.gt(c, 0))
-    for r in range(m):
-        for j in range(nf):
-            vc.prove(f"out-baseline==c*(B-baseline)[{r},{j}]", vc.and_(vc.is_defined(out[r, j]), vc.eq(out[r, j] - bp[j], c * Bl[r][j], scale=1.0)))
-    omax = vc.max_(*[out[r, j] - bp[j] for r in range(m) for j in range(nf)])
-    vc.prove("largest capture becomes the smallest single-source maximum", vc.eq(omax, amax, scale=1.0))
+    prods = [[Ap[j, k] * ub[k] for k in range(ns)] for j in range(nf)]
+    ppos = [vc.lemma(f"lemma:A'[{j},{k}]*ub[{k}]>0", vc.gt(prods[j][k], 0)) for j in range(nf) for k in range(ns)]
+    apos = vc.prove_from("lemma:amax>0", vc.gt(amax, 0), ppos, [p_ for row in prods for p_ in row], lemma=True)
+    bpos = vc.lemma("lemma:bmax>0", vc.gt(bmax, 0))
+    cpos = vc.prove_from("common factor is positive", vc.gt(c, 0), [apos, bpos], [amax, bmax], lemma=True)
+    idx = [(r, j) for r in range(m) for j in range(nf)]
+    eqs = {}
+    for r, j in idx:
+        eqs[r, j] = vc.lemma(f"out-baseline==c*(B-baseline)[{r},{j}]", vc.and_(vc.is_defined(out[r, j]), vc.eq(out[r, j] - bp[j], c * Bl[r][j], scale=1.0)))
+    # the maximum of the scaled captures equals amax -- every entry is <= amax and one attains it -- by generalisation cuts that keep the
+    # If-nests of amax / bmax and the products K*A out of the non-linear queries:  c*bmax == amax,  B-baseline <= bmax (attained)
+    cb = vc.lemma("lemma:c*bmax==amax", vc.eq(c * bmax, amax, scale=1.0))
+    les = {(r, j): vc.lemma(f"lemma:(B-baseline)<=bmax[{r},{j}]", vc.le(Bl[r][j], bmax)) for r, j in idx}
+    att = vc.lemma("lemma:bmax is attained", vc.any_(vc.eq(Bl[r][j], bmax) for r, j in idx))
+    o_ = {(r, j): out[r, j] - bp[j] for r, j in idx}
+    opq = [c, bmax, amax] + [Bl[r][j] for r, j in idx] + [out[r, j] for r, j in idx]
+    ups = {(r, j): vc.prove_from(f"lemma:out-baseline<=amax[{r},{j}]", vc.le(o_[r, j], amax), [cpos, cb, les[r, j], eqs[r, j]], opq, lemma=True) for r, j in idx}
+    hit = vc.prove_from("lemma:some out-baseline == amax", vc.any_(vc.eq(o_[r, j], amax, scale=1.0) for r, j in idx), [cb, att] + [eqs[k] for k in idx], opq, lemma=True)
+    omax = vc.max_(*[o_[r, j] for r, j in idx])
+    vc.prove_from("largest capture becomes the smallest single-source maximum", vc.eq(omax, amax, scale=1.0), [hit] + [ups[k] for k in idx], [amax] + [out[r, j] for r, j in idx])
     vc.canary("unchanged", vc.eq(out[0, 0], B[0, 0]))
 
 
